@@ -4,7 +4,7 @@
 
 package engine
 
-//@ typeinv *engine.compatibilityEngine e: e.prom != nil && e.queries != nil
+//@ typeinv *engine.compatibilityEngine e: e.prom != nil && e.queries != nil && e.logger != nil
 
 // triggerFallback: exactly the errors that identify themselves as unsupported / not implemented,
 // and only when fallback is enabled (C08).
@@ -85,3 +85,67 @@ package engine
 //@       cast(result0, *engine.compatibilityQuery).engine == e && cast(result0, *engine.compatibilityQuery).t == engine.RangeQuery &&
 //@       cast(result0, *engine.compatibilityQuery).expr == callres("parser.ParseExpr", 1, 0) &&
 //@       cast(result0, *engine.compatibilityQuery).Query.exec == callres("execution.New", 1, 0)
+
+// recoverEngine: every panic that reaches Exec becomes the query's error (C13).
+//@ func recoverEngine
+//@   requires errp != nil && expr != nil && logger != nil
+//@   recovers
+//@   assigns *errp
+//@   ensures[C13] panic-becomes-error: PANICKING ==> *errp != nil
+//@   ensures[C13] no-panic-no-change: !PANICKING ==> *errp == old(*errp)
+
+//@ pred seriesOK(series) = fresh(series) && !isnil(series) && (forall j in 0..len(series) :: fresh(series[j].Points))
+//@ pred retOK(ret) = ret.Err == nil && fresh(ret)
+
+// Exec (C13, C15, C19, C20): a result is always returned; a panic or an operator error ends up
+// in ret.Err; success means the stream was read to its end; a range result is a sorted matrix
+// without empty series, an instant result has the expression's type and is stamped with the
+// evaluation time; the returned points live in memory allocated by this call.
+//@ func (*compatibilityQuery).Exec
+//@   requires q != nil && q.Query != nil && q.Query.exec != nil && q.engine != nil && ctx != nil && q.expr != nil
+//@   requires q.t == engine.InstantQuery || q.t == engine.RangeQuery
+//@   requires q.expr.Type() == parser.ValueTypeMatrix || q.expr.Type() == parser.ValueTypeVector || q.expr.Type() == parser.ValueTypeScalar
+//@   assigns engine.compatibilityQuery.cancel, ghost ended
+//@   ensures[C13] always-a-result: ret != nil
+//@   ensures[C13] panic-becomes-error: RECOVERED ==> ret.Err != nil
+//@   ensures[C15] series-error-surfaces: ncalls("model.VectorOperator.Series") == 1 && callres("model.VectorOperator.Series", 1, 1) != nil ==> ret.Err != nil
+//@   ensures[C15] success-means-stream-fully-read: ret.Err == nil ==> q.Query.exec.ended
+//@   at engine.newErrResult assert[C15] only-real-errors: $err != nil && $r == ret
+//@   ensures[C19] range-result-is-sorted-matrix-without-empty-series: ret.Err == nil && q.t == engine.RangeQuery ==>
+//@       istype(ret.Value, promql.Matrix) && cast(ret.Value, promql.Matrix).sortedByLabels &&
+//@       (forall i in 0..len(cast(ret.Value, promql.Matrix)) :: len(cast(ret.Value, promql.Matrix)[i].Points) > 0)
+//@   ensures[C19] instant-result-has-expression-type: ret.Err == nil && q.t == engine.InstantQuery ==>
+//@       (q.expr.Type() == parser.ValueTypeMatrix ==> istype(ret.Value, promql.Matrix)) &&
+//@       (q.expr.Type() == parser.ValueTypeVector ==> istype(ret.Value, promql.Vector)) &&
+//@       (q.expr.Type() == parser.ValueTypeScalar ==> istype(ret.Value, promql.Scalar))
+//@   ensures[C19] instant-vector-stamped-with-eval-time: ret.Err == nil && q.t == engine.InstantQuery && q.expr.Type() == parser.ValueTypeVector ==>
+//@       forall i in 0..len(cast(ret.Value, promql.Vector)) :: cast(ret.Value, promql.Vector)[i].Point.T == q.ts.UnixMilli()
+//@   ensures[C19] scalar-stamped-with-eval-time: ret.Err == nil && q.t == engine.InstantQuery && q.expr.Type() == parser.ValueTypeScalar ==>
+//@       cast(ret.Value, promql.Scalar).T == q.ts.UnixMilli()
+//@   ensures[C20] range-points-freshly-allocated: ret.Err == nil && q.t == engine.RangeQuery ==>
+//@       fresh(cast(ret.Value, promql.Matrix)) && (forall i in 0..len(cast(ret.Value, promql.Matrix)) :: fresh(cast(ret.Value, promql.Matrix)[i].Points))
+//@   mayfail line "v = series[0].Points[0].V"
+//@   ghostvar total int = 0
+//@   after model.VectorOperator.Next set total = total + ite($err == nil && !isnil($r), len($r), 0)
+//@   loop 1 invariant[C01,C06,C07] scalar-stream-keeps-points-of-all-batches: total >= 0 &&
+//@       (len(resultSeries) == 0 && q.Query.exec.oneSamplePerStep && total > 0 ==> len(series) >= 1 && len(series[0].Points) == total) &&
+//@       (len(resultSeries) == 0 && total == 0 ==> len(series) == 0)
+//@   loop 3 invariant[C01,C06,C07] scalar-points-so-far: len(resultSeries) == 0 && q.Query.exec.oneSamplePerStep ==>
+//@       len(series) >= 1 && len(series[0].Points) == total - len(r) + rangeindex + 1
+//@   loop 4 invariant[C01,C06,C07] scalar-point-of-this-step: len(resultSeries) == 0 && q.Query.exec.oneSamplePerStep ==>
+//@       len(series) >= 1 && len(vector.Samples) == 1 && len(series[0].Points) == atloop(len(series[0].Points)) + ite(rangeindex >= 0, 1, 0)
+//@   loop 0 invariant 0 <= i && i <= len(resultSeries) && seriesOK(series) && len(series) == len(resultSeries) && retOK(ret)
+//@   loop 1 invariant ret-untouched: retOK(ret)
+//@   loop 1 invariant series-owned: seriesOK(series)
+//@   loop 1 invariant series-per-label-set: len(resultSeries) == q.Query.exec.nSeries && (len(resultSeries) != 0 ==> len(series) == len(resultSeries))
+//@   loop 2 invariant count: numSeries >= 0 && (forall k in 0..rangeindex+1 :: len(r[k].Samples) <= numSeries) && retOK(ret) &&
+//@       (q.Query.exec.oneSamplePerStep ==> numSeries == rangeindex + 1)
+//@   loop 3 invariant labelless-outer: retOK(ret) && seriesOK(series) && len(series) >= numSeries && (forall k in 0..len(r) :: len(r[k].Samples) <= numSeries)
+//@   loop 4 invariant labelless-inner: retOK(ret) && seriesOK(series) && len(series) >= numSeries && len(vector.Samples) <= numSeries
+//@   loop 5 invariant labelled-outer: retOK(ret) && seriesOK(series) && (len(resultSeries) != 0 ==> len(series) == len(resultSeries)) && (len(resultSeries) == 0 ==> len(r) == 0) &&
+//@       (len(resultSeries) == 0 && len(series) >= 1 ==> len(series[0].Points) == atloop(len(series[0].Points)))
+//@   loop 6 invariant labelled-inner: retOK(ret) && seriesOK(series) && len(series) == len(resultSeries)
+//@   loop 7 invariant matrix-rows-nonempty: retOK(ret) && seriesOK(series) && fresh(resultMatrix) && !isnil(resultMatrix) && ref(resultMatrix) != ref(series) &&
+//@       (forall j in 0..len(resultMatrix) :: len(resultMatrix[j].Points) > 0 && fresh(resultMatrix[j].Points))
+//@   loop 8 invariant samples-stamped: retOK(ret) && seriesOK(series) && fresh(vector) &&
+//@       (forall j in 0..len(vector) :: vector[j].Point.T == q.ts.UnixMilli())
